@@ -300,12 +300,25 @@ impl Drop for Cqueue {
         // }
 
         // run the rest event
+        // the owner may be cancelled itself: the wait must still block until all the
+        // select coroutines are gone, they borrow from the owner's stack
+        let cancel = if crate::coroutine_impl::is_coroutine() {
+            Some(current_cancel_data())
+        } else {
+            None
+        };
+        if let Some(c) = cancel.as_ref() {
+            c.disable_cancel();
+        }
         loop {
             match self.poll(None) {
                 Ok(_) => {}
                 Err(_e @ PollError::Finished) => break,
                 _ => unreachable!("cqueue drop unreachable"),
             }
+        }
+        if let Some(c) = cancel.as_ref() {
+            c.enable_cancel();
         }
         // we are sure that all the coroutines are finished
     }
